@@ -538,10 +538,11 @@ pub fn build(quick: bool) -> Check {
             Box::new(BulkyLists),
             Box::new(TypesFlags { flags }),
             Box::new(PrepareShapes { counts: vec![0, 1, 2, 250, 251, 1000], ids: vec![0, 1, 255, 256, 65535, 65536, 1 << 31, u32::MAX] }),
+            Box::new(super::aftermath::Aftermath { prop: "C09" }),
             Box::new(MetaHistories { evs: meta_events(), depth: 1 }),
             Box::new(MetaHistories { evs: meta_events(), depth: 2 }),
             Box::new(MetaHistories { evs: meta_events(), depth: if quick { 3 } else { 4 } }),
         ],
-        required: vec!["metadata_histories", "more_than_250_columns", "names_longer_than_250", "type_flag_pairs", "wide_statement_ids", "bulky_lists"],
+        required: vec!["aftermath_recovered", "metadata_histories", "more_than_250_columns", "names_longer_than_250", "type_flag_pairs", "wide_statement_ids", "bulky_lists"],
     }
 }
